@@ -6,7 +6,11 @@ about the interpreter's character classes (`Faithful`) are decided code point by
 Oracle: `str.isidentifier`, `keyword.iskeyword`, the reserved list, NFKC stability, `compile()`
 of a class body using the name, injectivity over sibling sets, the recorded source; for every name an `Object`
 (class, metaclass, instance) answers to, in each JSON spelling that maps onto it: instances of a model with such a
-property keep every method and every generic protocol a property-less instance has (`check_facilities`)."""
+property keep every method and every generic protocol a property-less instance has (`check_facilities`).
+Titles: the formatted class name, the `__name__` of the class parsed from an object schema carrying the title and the
+class statement of the generated module must be a valid, non-keyword, unshadowing, distinct class name
+(`class_name_problems`); the listed region C12-titles covers only an empty / keyword / shadowing name which the Lean
+model of the formatter predicts as well (`region_for_title`)."""
 import keyword
 import random
 import unicodedata
@@ -95,6 +99,16 @@ def check_names(drv, names, out, stats, sweep=False):
                 out.failures.append({"case": case, "what": f"attribute name {attr!r}: {', '.join(problems)}", "finding": None})
             elif len([f for f in out.failures if f.get("finding") == fid]) < 3:
                 out.failures.append({"case": case, "what": f"attribute name {attr!r}: {', '.join(problems)}", "finding": fid})
+        # the same string as a title (quantifier: every code point, alone and in context, as titles too)
+        tproblems = class_name_problems(title)
+        if tproblems:
+            tfid = region_for_title(tproblems[0], title, model_title)
+            key = "name-as-title-" + tproblems[0].split(" ")[0] + ("" if tfid else "-outside-listed-region")
+            stats[key] = stats.get(key, 0) + 1
+            if tfid is None and len([f for f in out.failures if f.get("finding") is None and "title" in f.get("case", {})]) < 10:
+                out.failures.append({"case": {"title": n}, "what": f"title {n!r} -> class name {title!r}: {tproblems[0]}", "finding": None})
+        else:
+            stats["name-as-title-ok"] = stats.get("name-as-title-ok", 0) + 1
 
 
 def check_faithful(out, stats, cps):
@@ -171,22 +185,135 @@ def check_class_names(drv, schema, out, stats):
                              "finding": "C12-titles" if (empty and agree) else None})
 
 
-def check_title(title, out, stats):
+def class_name_problems(cls_name):
+    """Why `cls_name` is not a usable class name (statement: a valid class name, distinct from every name the generated
+    module imports or uses).  Empty list = fine."""
+    if not cls_name:
+        return ["empty"]
+    if not cls_name.isidentifier() or unicodedata.normalize("NFKC", cls_name) != cls_name:
+        return ["not a valid identifier"]
+    if keyword.iskeyword(cls_name):
+        return ["keyword (a reserved word)"]
+    try:
+        compile(f"class {cls_name}:\n    pass\n", "<class-name>", "exec")
+    except SyntaxError:
+        return ["does not compile as a class name"]
+    if cls_name in USED_NAMES:
+        return ["shadows a name the generated module imports or uses"]
+    return []
+
+
+# what the listed finding C12-titles describes: the formatted title is empty, is a keyword (None / True), or shadows a
+# name of the generated module - and nothing else (in particular not: a class name that is not an identifier)
+TITLES_REGION = {"empty", "keyword (a reserved word)", "shadows a name the generated module imports or uses"}
+
+
+def region_for_title(problem, cls_name, model_name):
+    """C12-titles only where the Lean model of the title formatter predicts the very same class name and the defect is
+    one the finding describes; anything else is a fresh failure."""
+    return "C12-titles" if (problem in TITLES_REGION and model_name is not None and cls_name == model_name) else None
+
+
+def model_titles(drv, titles):
+    if drv is None:
+        return [None] * len(titles)
+    rep = drv.ask({"op": "titles", "names": titles})
+    if "error" in rep or len(rep.get("titles", [])) != len(titles):
+        return [None] * len(titles)
+    return rep["titles"]
+
+
+def check_title(title, out, stats, drv=None, model_name=None):
+    """A title maps to a valid class name: the formatter's result, the `__name__` of the class parsed from an object
+    schema carrying the title (beside a second titled object), and the class statement of the generated module."""
     if core.has_surrogate(title):
         return
-    cls_name = _title_format(title)
     case = {"title": title}
     out.note_case(case, True)
-    problems = []
-    if not cls_name:
-        problems.append("empty")
-    elif not cls_name.isidentifier() or keyword.iskeyword(cls_name):
-        problems.append("not a valid class name")
-    elif cls_name in USED_NAMES:
-        problems.append("shadows a name the generated module imports or uses")
+    if model_name is None:
+        model_name = model_titles(drv, [title])[0]
+    try:
+        cls_name = _title_format(title)
+    except Exception as exc:  # noqa: BLE001
+        out.failures.append({"case": case, "what": f"formatting the title {title!r} raised {type(exc).__name__}: {exc}", "finding": None})
+        return
+    problems = class_name_problems(cls_name)
     if problems:
-        out.failures.append({"case": case, "what": f"title {title!r} -> class name {cls_name!r}: {problems[0]}", "finding": "C12-titles"})
-        stats["title-" + problems[0].split(" ")[0]] = stats.get("title-" + problems[0].split(" ")[0], 0) + 1
+        fid = region_for_title(problems[0], cls_name, model_name)
+        key = "title-" + problems[0].split(" ")[0] + ("" if fid else "-outside-listed-region")
+        stats[key] = stats.get(key, 0) + 1
+        if fid is None or len([f for f in out.failures if f.get("finding") == fid and "title" in f.get("case", {})]) < 25:
+            out.failures.append({"case": case, "what": f"title {title!r} -> class name {cls_name!r}: {problems[0]}", "finding": fid})
+        return
+    # the title at work: an object schema carrying it, next to a differently titled object
+    from statham.schema.elements.meta import ObjectMeta
+    from statham.schema.parser import parse
+    from statham.serializers.orderer import get_object_classes
+    from statham.serializers.python import serialize_python
+    doc = {"type": "object", "title": title, "properties": {
+        "v": {"type": "integer"}, "other": {"type": "object", "title": "zq other", "properties": {"w": {"type": "string"}}}}}
+    try:
+        elements = parse(core.copy.deepcopy(doc))
+        classes = []
+        for c in get_object_classes(*elements):
+            if not any(c is d for d in classes):
+                classes.append(c)
+        names = [c.__name__ for c in classes]
+    except Exception as exc:  # noqa: BLE001
+        out.failures.append({"case": case, "what": f"an object schema titled {title!r} does not parse: {type(exc).__name__}: {exc}", "finding": None})
+        return
+    bad = [(n, class_name_problems(n)[0]) for n in names if class_name_problems(n)]
+    if bad or len(names) != 2 or len(set(names)) != 2:
+        out.failures.append({"case": case, "what": f"object schemas titled {title!r} and 'zq other' became classes {names}" + (f": {bad[0][0]!r} {bad[0][1]}" if bad else ""), "finding": None})
+        return
+    try:
+        ns = {}
+        exec(compile(serialize_python(*elements), "<title>", "exec"), ns)  # noqa: S102 - the generated text is the thing under test
+        missing = [n for n in names if not isinstance(ns.get(n), ObjectMeta)]
+    except Exception as exc:  # noqa: BLE001
+        out.failures.append({"case": case, "what": f"the module generated for title {title!r} (classes {names}) is unusable: {type(exc).__name__}: {exc}", "finding": None})
+        return
+    if missing:
+        out.failures.append({"case": case, "what": f"the module generated for title {title!r} does not define {missing}", "finding": None})
+        return
+    stats["title-ok(format, parsed class, generated module)"] = stats.get("title-ok(format, parsed class, generated module)", 0) + 1
+
+
+# word shapes a title is made of (ASCII only is what the formatter keeps; the rest exercises what it drops)
+TITLE_WORDS = {
+    "lower": ["point", "a", "item", "settings"],
+    "upper": ["HTTP", "ID", "X"],
+    "camel": ["fooBar", "HttpServer", "aB"],
+    "digit-led": ["2d", "3D", "1st", "2fa", "66", "0x", "9Lives"],
+    "digit-inside": ["v2", "x1y", "Area51"],
+    "non-ascii": ["é", "顧客", "ß", "²", "٣"],
+    "non-ascii-mixed": ["éa", "müller", "x²", "٣d", "Ünï"],
+}
+TITLE_SEPARATORS = [" ", "-", "_", ".", "  ", "/", ": ", "\t", "\u00a0", "é", ""]
+
+
+def title_family(rng, n):
+    """Titles as sequences of 1-4 words, every word shape at every word position (first / later), every separator;
+    optionally led or trailed by separators.  Returns (title, shape of the first word, number of words)."""
+    shapes = sorted(TITLE_WORDS)
+    out = []
+    for first in shapes:                       # every shape leads a title, alone and followed by every other shape
+        for w in TITLE_WORDS[first]:
+            out.append((w, first, 1))
+        for later in shapes:
+            sep = rng.choice(TITLE_SEPARATORS[:-1])
+            out.append((rng.choice(TITLE_WORDS[first]) + sep + rng.choice(TITLE_WORDS[later]), first, 2))
+    for _ in range(n):
+        k = rng.randint(1, 4)
+        picked = [rng.choice(shapes) for _ in range(k)]
+        t = rng.choice(["", "", " ", "-", "_"])
+        for i, sh in enumerate(picked):
+            if i:
+                t += rng.choice(TITLE_SEPARATORS)
+            t += rng.choice(TITLE_WORDS[sh])
+        t += rng.choice(["", "", " ", "-"])
+        out.append((t, picked[0], k))
+    return out
 
 
 def check_autotitles(drv, keys, out, stats):
@@ -489,7 +616,7 @@ def run(ctx, scale=1.0):
     out = Outcome()
     out.rule = ("single characters in three contexts (alone, between letters, after `_`): every code point below U+3000 plus a random "
                 "sample (quick) or every Unicode scalar value (thorough); strings of 2-6 class representatives; keyword / reserved / "
-                "dunder words; sibling sets of 2-4 names; titles; every attribute name of Object / its metaclass / an instance in the JSON "
+                "dunder words; sibling sets of 2-4 names; titles (random over a small alphabet, and built word by word: every word shape - digit-led, capitals, camel case, non-ASCII - in first and later position with every separator; every swept string also as a title), each formatted, parsed as an object title and generated; every attribute name of Object / its metaclass / an instance in the JSON "
                 "spellings mapping onto it (instances keep all instance facilities); non-trivial = longer than one character; distinct by SHA-256")
     stats = {}
     drv = core.Driver()
@@ -549,10 +676,18 @@ def run(ctx, scale=1.0):
             {"type": "array", "items": same(1), "contains": same(1)},
         ):
             check_class_names(drv, schema, out, stats)
-        for t in ["thing", "my object", "123", "é", "none", "true", "property", "any", "object", "list", "union", "maybe", "a1b", "fooBar",
+        titles = ["thing", "my object", "123", "é", "none", "true", "property", "any", "object", "list", "union", "maybe", "a1b", "fooBar",
                   "foo_bar", "HTTPServer", "x", "array", "_", "1abcDef", "Ünï", "the-title", "not"] + \
-                ["".join(rng.choice("abcXY12 _-é") for _ in range(rng.randint(1, 7))) for _ in range(int(200 * scale))]:
-            check_title(t, out, stats)
+                 ["".join(rng.choice("abcXY12 _-é") for _ in range(rng.randint(1, 7))) for _ in range(int(200 * scale))]
+        # titles built word by word: every word shape (digit-led, all capitals, camel case, non-ASCII, ...) in first and in later position
+        family = title_family(rng, int(250 * scale))
+        for t, first, k in family:
+            key = f"title-family: first word {first}, {'one word' if k == 1 else 'several words'}"
+            stats[key] = stats.get(key, 0) + 1
+        titles = list(dict.fromkeys(titles + [t for t, _, _ in family]))
+        titles = [t for t in titles if not core.has_surrogate(t)]
+        for t, m in zip(titles, model_titles(drv, titles)):
+            check_title(t, out, stats, drv, model_name=m)
     finally:
         drv.close()
     out.stats = stats
@@ -567,8 +702,8 @@ def search(ctx, reason):
     return fresh[0] if fresh else None
 
 
-def replay_finding(finding):
-    w = finding["witness"]
+def rerun(w):
+    """Evaluate one recorded case again; returns the failures it produces now."""
     out, stats = Outcome(), {}
     if "schema" in w:
         drv = core.Driver()
@@ -581,7 +716,11 @@ def replay_finding(finding):
     elif "names" in w:
         check_siblings(w["names"], out, stats)
     elif "title" in w:
-        check_title(w["title"], out, stats)
+        drv = core.Driver()
+        try:
+            check_title(w["title"], out, stats, drv)
+        finally:
+            drv.close()
     elif "usable" in w:
         check_usable(w["usable"], out, stats)
     elif "facilities" in w:
@@ -592,13 +731,31 @@ def replay_finding(finding):
             check_autotitles(drv, w["autotitle_keys"], out, stats)
         finally:
             drv.close()
+    elif "hypothesis" in w:
+        check_faithful(out, stats, all_code_points())
     else:
-        return bool(attr_problems(w["name"], _parse_attribute_name(w["name"])))
-    return bool(out.failures)
+        drv = core.Driver()
+        try:
+            check_names(drv, [w["name"]], out, stats)
+        finally:
+            drv.close()
+        out.failures = [f for f in out.failures if "name" in f.get("case", {})]
+    return out.failures
+
+
+def replay_finding(finding):
+    """a listed finding still shows: its witness still fails (in whatever region)"""
+    return bool(rerun(finding["witness"]))
 
 
 def replay(payload):
-    case = payload.get("failure", {}).get("case")
+    """a reported violation still fails: the case still produces a failure of the kind it was reported as (one outside
+    every listed region stays outside; a case that now only shows a listed finding has stopped failing)"""
+    failure = payload.get("failure", {})
+    case = failure.get("case")
     if not case:
         return True
-    return not replay_finding({"witness": case})
+    now = rerun(case)
+    if failure.get("finding") is None:
+        now = [f for f in now if f.get("finding") is None]
+    return not now
